@@ -313,3 +313,63 @@ pub fn colour_replay_main(args: &[String]) -> i32 {
     println!("taikocolour-replay: scenarios={} mismatches={}", n, mism.len());
     0
 }
+
+/// `taikorhythm-replay <scenarios.ndjson> <out.json>`: every interval sequence TLC enumerated (MC_TaikoRhythm) as a native taiko
+/// map of circles; the same-rhythm groups (length, interval) and same-pattern groups the hook reports (`taiko_rhythm`) must be
+/// the model's.  Run in the default and in the `sync` build.
+pub fn rhythm_replay_main(args: &[String]) -> i32 {
+    silence_panics();
+    let scenarios = read_ndjson(&args[0]);
+    let n = scenarios.len();
+    let ints = |v: &Value| -> Vec<i64> { v.as_array().map(|a| a.iter().map(|x| x.as_f64().map_or(i64::MIN, |f| if f.fract() == 0.0 { f as i64 } else { i64::MIN + 1 })).collect()).unwrap_or_default() };
+    let res = par_map(n, n_threads(), |i| {
+        let sc = &scenarios[i];
+        let ivs = ints(&sc["ivs"]);
+        let mut s = String::from("osu file format v14\n\n[General]\nMode: 1\n\n[Difficulty]\nHPDrainRate:5\nCircleSize:4\nOverallDifficulty:5\nApproachRate:5\nSliderMultiplier:1.4\nSliderTickRate:1\n\n[TimingPoints]\n0,500,4,2,0,100,1,0\n\n[HitObjects]\n");
+        // the first two objects have no difficulty object
+        let mut t = 1000;
+        let _ = writeln!(s, "256,192,{t},1,0");
+        t += 200;
+        let _ = writeln!(s, "256,192,{t},1,8");
+        for (k, d) in ivs.iter().enumerate() {
+            t += d;
+            let _ = writeln!(s, "256,192,{t},1,{}", [0, 8, 0, 0, 8][k % 5]);
+        }
+        let mut out: Vec<Value> = Vec::new();
+        let mut bad = |what: &str, exp: String, obs: String| {
+            out.push(json!({"what": what, "scenario_index": i, "ivs": ivs, "osu_text": s, "expected": exp, "observed": obs}));
+        };
+        let Ok(map) = Beatmap::from_bytes(s.as_bytes()) else {
+            bad("machinery:decode", "ok".into(), "error".into());
+            return out;
+        };
+        rosu_pp::verif::trace::start();
+        let r = guarded(|| rosu_pp::Difficulty::new().calculate(&map));
+        let raw = rosu_pp::verif::trace::take();
+        if let Err(p) = r {
+            bad("panic", "no panic".into(), p);
+            return out;
+        }
+        let Some(ev) = raw.iter().filter(|e| e.contains("taiko_rhythm")).filter_map(|e| serde_json::from_str::<Value>(e).ok()).next() else {
+            bad("machinery:no_event", "a taiko_rhythm event".into(), format!("{} events", raw.len()));
+            return out;
+        };
+        if ints(&ev["intervals"]) != ivs {
+            bad("machinery:intervals", format!("{ivs:?}"), format!("{:?}", ints(&ev["intervals"])));
+            return out;
+        }
+        let got_groups: Vec<i64> = ev["groups"].as_array().map(|a| a.iter().map(|g| g[0].as_i64().unwrap_or(-9)).collect()).unwrap_or_default();
+        let got_gi: Vec<i64> = ev["groups"].as_array().map(|a| a.iter().map(|g| g[1].as_f64().map_or(-9, |f| if f < 0.0 { 1_000_000_000 } else if f.fract() == 0.0 { f as i64 } else { -8 })).collect()).unwrap_or_default();
+        let got_pat = ints(&ev["patterns"]);
+        let want = (ints(&sc["groups"]), ints(&sc["intervals"]), ints(&sc["patterns"]));
+        if (got_groups.clone(), got_gi.clone(), got_pat.clone()) != want {
+            bad("rhythm_grouping", format!("groups {:?} intervals {:?} patterns {:?}", want.0, want.1, want.2), format!("groups {got_groups:?} intervals {got_gi:?} patterns {got_pat:?}"));
+        }
+        out
+    });
+    let mism: Vec<Value> = res.into_iter().flatten().collect();
+    let machinery = mism.iter().filter(|m| m["what"].as_str().unwrap_or("").starts_with("machinery")).count();
+    std::fs::write(&args[1], serde_json::to_string_pretty(&json!({"scenarios": n, "mismatches": mism.len(), "machinery": machinery, "records": mism.iter().take(12).collect::<Vec<_>>()})).unwrap()).unwrap();
+    println!("taikorhythm-replay: scenarios={} mismatches={}", n, mism.len());
+    0
+}
